@@ -176,7 +176,8 @@ class InteractingNetworks(Network):
 
         #  determine number of cross links
         if cross_link_density is not None:
-            number_cross_links = int(cross_link_density * (N1 * N2))
+            #  (rounded: the product is not exact in floating point)
+            number_cross_links = int(round(cross_link_density * (N1 * N2)))
             print("Setting number of cross links according to "
                   "chosen link density.")
         elif cross_link_density is None and number_cross_links is None:
@@ -238,7 +239,8 @@ class InteractingNetworks(Network):
 
         #  determine number of cross links
         if cross_link_density is not None:
-            number_cross_links = int(cross_link_density * (N1 * N2))
+            #  (rounded: the product is not exact in floating point)
+            number_cross_links = int(round(cross_link_density * (N1 * N2)))
             print("Setting number of cross links according to chosen \
                   link density.")
         elif cross_link_density is None and number_cross_links is None:
